@@ -190,3 +190,13 @@ def natural_loops(blocks, entry=0):
                 h[0] |= body
                 h[1].add(b)
     return [(h, v[0], v[1]) for h, v in sorted(loops.items())], dom, preds
+
+
+def bool_branch_taken(term, nxt):
+    """For a `switch` on a boolean: is the edge to block `nxt` the *true* edge?  (targets = [(0, false block)], otherwise = true block;
+    target values are serialised as hex strings)"""
+    for v, tg in term["targets"]:
+        iv = int(v, 16) if isinstance(v, str) else v
+        if iv == 0 and tg == nxt:
+            return False
+    return True
